@@ -90,6 +90,7 @@ Proof.
   destruct calls as [|[[fidx to] code] rest]; [split; auto|].
   destruct ((fidx =? idx)%N && mig_valid_target (md d) v start to); cbn [negb]; [|split; auto].
   destruct (code =? 1)%N; [apply IH|].
+  destruct (code =? 4)%N; [destruct (in_flight r (thr d)); [apply IH|split; auto]|].
   set (d1 := with_cache d (cadd (csize d) r (content d v idx) (cache d))).
   assert (H1 : forall a b c rs m fl, (forall e, In e (pend (fst (dmigrate f a b c rs m fl d1))) -> In e (pend d)) /\
                  changed (fst (dmigrate f a b c rs m fl d1)) = changed d).
@@ -210,10 +211,6 @@ Proof.
   unfold slot_at in *. cbn [vols with_mets]. exact SA.
 Qed.
 
-Lemma in_flight_false r (l : list (N * (N * N * N))) t q v i :
-  in_flight r l = false -> alookup t l = Some (q, v, i) -> q <> r.
-Proof. intros H A ->. now rewrite (in_flight_spec r l t v i A) in H. Qed.
-
 (* the metadata commit of RemoveSector r: only r is excused afterwards *)
 Lemma dinvE_remove_md XE d r m :
   dinvE XE d -> in_flight r (thr d) = false -> remove_sector r (md d) = Ok m ->
@@ -232,47 +229,42 @@ Proof.
   - exact J.
   - intros q w j H. rewrite K. eapply I2. eapply Hsub; eauto.
   - exact I3.
-  - intros t q w j H. destruct (I4 t q w j H) as [S C]. split; [|exact C].
+  - intros t q w j H. pose proof (I4 t q w j H) as S.
     apply Hkeep; [exact S|]. eapply in_flight_false; eauto.
   - exact I4'.
-  - intros q c H [w [j [S C]]]. apply (I5 q c H). exists w, j. split; [now apply Hsub|exact C].
+  - intros q c H [w [j [S C]]] NFq. apply (I5 q c H); [|exact NFq]. exists w, j. split; [now apply Hsub|exact C].
   - intros q H HE. rewrite (refd_same _ _ q SR) in H.
     assert (Hq : q <> r) by tauto. assert (HX : ~ XE q) by tauto.
-    destruct (I6 q H HX) as [w [j [S [C D]]]]. exists w, j. split; [now apply Hkeep|auto].
+    destruct (I6 q H HX) as [[w [j [S [C D]]]] NFq]. split; [|exact NFq]. exists w, j. split; [now apply Hkeep|auto].
 Qed.
 
-(* the zero write: harmless when the slot holds nobody's written data *)
+(* the zero write: harmless when the slot is free or held by a writer that has not written yet *)
 Lemma dinvE_zero XE d v i :
   dinvE XE d ->
-  (forall q, slot_at (md d) v i = Some (Some q) -> (exists t, alookup t (thr d) = Some (q, v, i)) /\ q <> 0%N) ->
+  (forall q, slot_at (md d) v i = Some (Some q) -> exists t, alookup t (thr d) = Some (q, v, i)) ->
   dinvE XE (with_files d (disk d) (kset v i 0%N (pend d))).
 Proof.
   intros [I1 I2 I3 I4 I4' I5 I6] W.
   assert (Cn : forall w j, content (with_files d (disk d) (kset v i 0%N (pend d))) w j =
                            if (w =? v)%N && (j =? i)%N then 0%N else content d w j).
   { intros w j. unfold content; cbn. destruct ((w =? v)%N && (j =? i)%N); reflexivity. }
-  assert (Hfree : forall w j q, slot_at (md d) w j = Some (Some q) -> content d w j = q -> (w =? v)%N && (j =? i)%N = false).
-  { intros w j q S C. destruct ((w =? v)%N && (j =? i)%N) eqn:E0; [|reflexivity].
-    apply andb_loc in E0 as [-> ->]. destruct (W q S) as [[t A] _]. destruct (I4 t q v i A) as [_ Hc]. congruence. }
+  assert (Hfree : forall w j q, slot_at (md d) w j = Some (Some q) -> in_flight q (thr d) = false -> (w =? v)%N && (j =? i)%N = false).
+  { intros w j q S NF. destruct ((w =? v)%N && (j =? i)%N) eqn:E0; [|reflexivity].
+    apply andb_loc in E0 as [-> ->]. destruct (W q S) as [t A]. now rewrite (in_flight_spec q _ t v i A) in NF. }
   constructor; cbn [md with_files thr cache]; auto.
-  - intros t q w j H. destruct (I4 t q w j H) as [S C]. split; [exact S|]. rewrite Cn.
-    destruct ((w =? v)%N && (j =? i)%N) eqn:E0; [|exact C].
-    apply andb_loc in E0 as [-> ->]. destruct (W q S) as [_ Hq]. congruence.
-  - intros q c H [w [j [S C]]]. cbn [md with_files] in S. rewrite Cn in C.
-    destruct ((w =? v)%N && (j =? i)%N) eqn:E0.
-    + apply andb_loc in E0 as [-> ->]. destruct (W q S) as [_ Hq]. congruence.
-    + apply (I5 q c H). exists w, j; auto.
-  - intros q H HE. destruct (I6 q H HE) as [w [j [S [C D]]]]. exists w, j. split; [exact S|].
-    rewrite Cn, (Hfree w j q S C). split; [exact C|]. exact D.
+  - intros q c H [w [j [S C]]] NF. cbn [md with_files] in S. rewrite Cn in C.
+    rewrite (Hfree w j q S NF) in C. apply (I5 q c H); [|exact NF]. exists w, j; auto.
+  - intros q H HE. destruct (I6 q H HE) as [[w [j [S [C D]]]] NF]. split; [|exact NF]. exists w, j. split; [exact S|].
+    rewrite Cn, (Hfree w j q S NF). split; [exact C|]. exact D.
 Qed.
 
 (* fsync of the volume and the cache drop *)
 Lemma dinvE_rs_end XE d v r : dinvE XE d -> dinvE XE (with_cache (sync_vol v d) (cdel r (cache d))).
 Proof.
   intros I. apply dinv_cache; [now apply dinv_sync_vol|].
-  intros q c H Wq. destruct (N.eq_dec q r) as [->|Hq]; [now rewrite cget_cdel_same in H|].
+  intros q c H Wq NF. destruct (N.eq_dec q r) as [->|Hq]; [now rewrite cget_cdel_same in H|].
   rewrite cget_cdel_other in H by exact Hq.
-  apply (d_cache d I q c H). destruct Wq as [w [j [S C]]]. exists w, j. split; [exact S|].
+  apply (d_cache d I q c H); [|exact NF]. destruct Wq as [w [j [S C]]]. exists w, j. split; [exact S|].
   now rewrite content_sync_vol in C.
 Qed.
 
@@ -405,24 +397,23 @@ Definition xwin (x : xstate) : Prop :=
 
 Record xinv (x : xstate) : Prop := mk_xinv {
   x_d : dinvE (lostp x) (xd x);
-  x_nz : forall t q w j, alookup t (thr (xd x)) = Some (q, w, j) -> q <> 0%N;
   x_win : xwin x }.
 
 Lemma xinv_init n : xinv (xinit n).
 Proof.
   constructor; cbn.
   - apply dinv_init.
-  - intros t q w j H; discriminate.
   - exact Logic.I.
 Qed.
 
 (* the steps the theorems are about: as [step_ok], but an operator's RemoveSector is allowed — as
    one step or cut at its internal steps — provided no upload of that very sector is in flight
-   when its metadata is removed (see rs_in_flight_refuted); content 0 (zeroes) is nobody's root *)
+   when its metadata is removed (see rs_in_flight_refuted).  The former proviso "content 0
+   (zeroes) is nobody's root" is gone with clause (b) of [step_ok]: the invariant no longer says
+   anything about the bytes under a writer that has not written yet. *)
 Definition xstep_ok (x : xstate) (o : xop) : Prop :=
   match o with
   | XD (DRemoveSector r) => in_flight r (thr (xd x)) = false
-  | XD (DReserve t r loc) => r <> 0%N /\ step_ok (xd x) (DReserve t r loc)
   | XD o' => step_ok (xd x) o'
   | XRsCommit => match xmu x with Some (r, _, RsLocated) => in_flight r (thr (xd x)) = false | _ => True end
   | _ => True
@@ -455,10 +446,7 @@ Lemma xinv_coarse x o :
   xinv {| xd := fst (dstep (xd x) o); xmu := xmu x;
           xlost := match o with DRemoveSector r => if is_ok (snd (dstep (xd x) o)) then r :: xlost x else xlost x | _ => xlost x end |}.
 Proof.
-  intros [I NZ W] OK NC EN. set (d := xd x) in *.
-  assert (Hnz : forall t q w j, alookup t (thr (fst (dstep d o))) = Some (q, w, j) -> q <> 0%N).
-  { intros t q w j H. destruct (thr_step d o t (q, w, j) (d_tids d I) H) as [H0|[r [loc [-> Hr]]]]; [eauto|].
-    cbn in Hr; subst. cbn in OK. tauto. }
+  intros [I W] OK NC EN. set (d := xd x) in *.
   destruct (match o with DRemoveSector _ => true | _ => false end) eqn:RS.
   - (* VolumeManager.RemoveSector as one step: vm.mu is free *)
     destruct o; try discriminate. cbn [xstep_ok] in OK.
@@ -467,15 +455,13 @@ Proof.
     + eapply dinvE_weaken; [|apply (dinvE_remove_sector (lostp x) d r I OK)].
       unfold lostp. intros q [Hq|[Hb ->]]; rewrite ?Hb; cbn; auto.
       destruct (is_ok _); cbn; auto.
-    + exact Hnz.
     + unfold xwin; cbn. now rewrite EN.
   - assert (SO : step_ok d o).
-    { destruct o; try exact OK; try discriminate. cbn in OK. tauto. }
+    { destruct o; try exact OK; try discriminate. }
     assert (EL : (match o with DRemoveSector r => if is_ok (snd (dstep d o)) then r :: xlost x else xlost x | _ => xlost x end) = xlost x).
     { destruct o; try reflexivity; discriminate. }
     rewrite EL. constructor; cbn [xd xmu xlost].
     + apply dinv_step; assumption.
-    + exact Hnz.
     + destruct EN as [EN|EN]; [unfold xwin; cbn; now rewrite EN|].
       destruct (no_mu_frame d o (d_inv d I) EN NC SO) as [Hs Ht].
       apply (xwin_frame x (fst (dstep d o)) W Hs Ht).
@@ -486,9 +472,8 @@ Proof.
   intros IX OK. destruct o as [o|r| |ok|ok|]; unfold xstep, xstep_gen.
   - (* a step of the coarse model *)
     destruct (match o with DCrash => true | _ => false end) eqn:CR.
-    + destruct o; try discriminate. cbn [fst]. destruct IX as [I NZ W]. constructor; cbn [xd xmu xlost].
+    + destruct o; try discriminate. cbn [fst]. destruct IX as [I W]. constructor; cbn [xd xmu xlost].
       * now apply dinv_crash.
-      * cbn. intros t q w j H; discriminate.
       * exact Logic.I.
     + assert (NC : o <> DCrash) by (intros ->; discriminate).
       assert (Hgo : forall (EN : xmu x = None \/ takes_mu o (xd x) = false),
@@ -505,21 +490,19 @@ Proof.
   - (* XRsLocate: vm.mu.Lock, SectorLocation *)
     destruct (xmu x) eqn:MU; [exact IX|].
     destruct (locate r (md (xd x))) as [[v i]|] eqn:L; cbn [fst]; [|exact IX].
-    destruct IX as [I NZ W]. constructor; cbn [xd xmu xlost].
+    destruct IX as [I W]. constructor; cbn [xd xmu xlost].
     + now apply dinv_touch.
-    + rewrite touch_thr. exact NZ.
     + unfold xwin; cbn [xmu xd]. rewrite touch_md. intros w j H. left.
       apply locate_slot in L; [|apply (d_inv _ I)].
       destruct (slot_injective (md (xd x)) w j v i r (d_inv _ I) H L) as [-> ->]. auto.
   - (* XRsCommit: Store.RemoveSector *)
     destruct (xmu x) as [[[r [v i]] [| |]]|] eqn:MU; try exact IX.
     cbn [xstep_ok] in OK. rewrite MU in OK.
-    destruct IX as [I NZ W]. pose proof (d_inv _ I) as I0.
+    destruct IX as [I W]. pose proof (d_inv _ I) as I0.
     destruct (remove_sector r (md (xd x))) as [m|e|] eqn:R; cbn [fst].
     + constructor; cbn [xd xmu xlost].
       * apply dinv_touch. eapply dinvE_weaken; [|apply (dinvE_remove_md (lostp x) (xd x) r m I OK R)].
         unfold lostp. intros q [Hq| ->]; cbn; auto.
-      * rewrite touch_thr. exact NZ.
       * unfold xwin; cbn [xmu xd]. rewrite touch_md, touch_thr. cbn [md thr with_md].
         destruct (remove_sector_facts r (md (xd x)) m I0 R) as [v0 [i0 [F [_ [_ [_ SA]]]]]].
         apply (vfind_iff (md (xd x)) r v0 i0 I0) in F.
@@ -531,18 +514,18 @@ Proof.
     + constructor; cbn [xd xmu xlost]; auto; try exact Logic.I.
   - (* XRsZero *)
     destruct (xmu x) as [[[r [v i]] [| |]]|] eqn:MU; try exact IX.
-    destruct IX as [I NZ W]. unfold xwin in W. rewrite MU in W.
+    destruct IX as [I W]. unfold xwin in W. rewrite MU in W.
     destruct (ok && is_some (vget v (vols (md (xd x))))); cbn [fst].
-    + constructor; cbn [xd xmu xlost]; [|exact NZ|exact Logic.I].
-      apply dinvE_zero; [exact I|]. intros q H. destruct (W q H) as [t A]. split; [now exists t|eapply NZ; eauto].
+    + constructor; cbn [xd xmu xlost]; [|exact Logic.I].
+      apply dinvE_zero; [exact I|exact W].
     + constructor; cbn [xd xmu xlost]; auto; try exact Logic.I.
   - (* XRsEnd *)
     destruct (xmu x) as [[[r [v i]] [| |]]|] eqn:MU; try exact IX.
-    destruct IX as [I NZ W]. destruct ok; cbn [fst]; constructor; cbn [xd xmu xlost]; auto; try exact Logic.I.
+    destruct IX as [I W]. destruct ok; cbn [fst]; constructor; cbn [xd xmu xlost]; auto; try exact Logic.I.
     now apply dinvE_rs_end.
   - (* XRsAbort *)
     destruct (xmu x) as [[[r [v i]] [| |]]|] eqn:MU; try exact IX.
-    destruct IX as [I NZ W]. cbn [fst]; constructor; cbn [xd xmu xlost]; auto; try exact Logic.I.
+    destruct IX as [I W]. cbn [fst]; constructor; cbn [xd xmu xlost]; auto; try exact Logic.I.
 Qed.
 
 Theorem xinv_runs l : forall x, xinv x -> xsteps_ok x l -> xinv (xruns x l).
@@ -558,7 +541,7 @@ Theorem readable_xruns size l r :
   refd (md (xd x)) r = true -> ~ In r (xlost x) ->
   read_result (xd x) r = Some r /\ read_result (dcrash (xd x)) r = Some r.
 Proof.
-  intros OK x H HE. pose proof (xinv_runs l (xinit size) (xinv_init size) OK) as [I _ _]. fold x in I.
+  intros OK x H HE. pose proof (xinv_runs l (xinit size) (xinv_init size) OK) as [I _]. fold x in I.
   split; [eapply referenced_readableE|eapply referenced_readable_after_crashE]; eauto.
 Qed.
 
@@ -740,7 +723,7 @@ Proof.
       destruct (9 =? r)%N eqn:E9; [right; now apply N.eqb_eq in E9|].
       vm_compute in H. destruct r as [|p]; try discriminate.
       repeat (destruct p as [p|p|]; try discriminate). }
-    destruct H0 as [->| ->]; [exists 1%N, 0%N|exists 1%N, 1%N]; vm_compute; auto.
+    destruct H0 as [->| ->]; (split; [|reflexivity]); [exists 1%N, 0%N|exists 1%N, 1%N]; vm_compute; auto.
   - intros r H. vm_compute in H.
     assert (r = 7%N \/ r = 9%N \/ r = 8%N).
     { destruct (7 =? r)%N eqn:E7; [left; now apply N.eqb_eq in E7|].
@@ -748,7 +731,7 @@ Proof.
       destruct (8 =? r)%N eqn:E8; [right; right; now apply N.eqb_eq in E8|].
       vm_compute in H. destruct r as [|p]; try discriminate.
       repeat (destruct p as [p|p|]; try discriminate). }
-    destruct H0 as [->|[->| ->]]; [left; reflexivity|left; reflexivity|right; exists 1%N, 0%N; vm_compute; auto].
+    destruct H0 as [->|[->| ->]]; [left; reflexivity|left; reflexivity|right; split; [exists 1%N, 0%N; vm_compute; auto|reflexivity]].
 Qed.
 
 Lemma xdemo_nonvacuous :
